@@ -15,7 +15,7 @@ from .runner import run_isolated, parallel_jobs
 RUNS = {'quick': 30000, 'thorough': 600000}
 # stage 2: batches x cases per batch x interpreters
 STAGE2 = {'quick': (12, 40, 8), 'thorough': (48, 60, 64)}
-LOGIC_MIX = {'quick': ['CTL'] * 6 + ['CTLS'] * 3 + ['LTL'] * 1,
+LOGIC_MIX = {'quick': ['CTL'] * 6 + ['CTLS'] * 3 + ['LTL'] * 2,
              'thorough': ['CTL'] * 5 + ['CTLS'] * 3 + ['LTL'] * 2}
 CERT_SEEDS = {'quick': 24, 'thorough': 64}
 
